@@ -20,7 +20,9 @@ def run(ctx):
     scen = [s for s in rc.gen_scenarios(ctx, 20 if quick else 400) if s['imm']]
     # walks confined to pushes and deletes of a tagged closure (1 repository, 1 tag, 2 blobs, image / index /
     # index-with-opaquely-declared-child / image-with-subject): dense in "delete something a tag reaches"
-    scen += rc.gen_scenarios(ctx, 120 if quick else 2000, cfg='OciRegistryGenImm.cfg')
+    scen += rc.gen_scenarios(ctx, 40 if quick else 2000, cfg='OciRegistryGenImm.cfg')
+    # one history per (state, operation) pair of the closure universe: every "delete something a tag reaches"
+    scen += rc.cover_scenarios(ctx, 'OciRegistryCover_imm.cfg', sample=1800 if quick else None)
     sp = rc.write_scenarios(ctx, scen)
     t = os.path.join(td, 'tlc-imm.ndjson')
     rc.run_reg(ctx, vh, t, stacks='mem', scen=sp)
@@ -33,12 +35,22 @@ def run(ctx):
     rc.run_reg(ctx, vh, t, stacks='ro(mem);immw(mem);http(ro(mem));http(immw(http(mem)))', n=30 if quick else 800, steps=50,
                imm='false', extra=['-honest', '-pre', '25'])
     traces.append(t)
+    # (3) the concurrent clause: goroutines contend on ocimem in immutable-tags mode (large manifests pushed to one
+    # tag at the same moment, deletes against pushes); TLC searches a linearization of each history (LinTrace)
+    import subprocess
+    tc = os.path.join(td, 'conc-imm.ndjson')
+    p = subprocess.run([vh, 'conc', '-mode', 'stress', '-n', str(45 if quick else 900), '-g', '5', '-ops', '6', '-imm', 'true',
+                        '-seed', str(ctx.seed * 7 + 1), '-stacks', 'mem', '-out', tc], capture_output=True, text=True, timeout=3000)
+    if p.returncode != 0:
+        raise vlib.Machinery('concurrent run failed: ' + p.stderr[-2000:])
     for t in traces:
         rc.count_ops(ctx, t)
     ctx.cov['samples'] = [dict(tlc_generated_scenario=scen[0]['ops'][:8]), dict(recorded_events=rc.sample_events(traces[-1], 4))]
     vlib.judge_traces(ctx, 'RegTrace', 'RegTrace.cfg', traces, strict=STRICT, label='immutable modes vs OciRegistry')
+    vlib.judge_traces(ctx, 'LinTrace', 'LinTrace.cfg', [tc], strict=dict(STRICT, K3_CommitTwoPhase=False), shard_lines=1500,
+                      label='concurrent immutable-tags histories (linearizability)')
     ctx.assumptions += ['"remains retrievable" is read as: no step removes content reachable from a tag through manifests read under the media type they are stored with (DESIGN 5/C14, O1)',
-                        'the concurrent clause is exercised by the C08 machinery']
+                        'the concurrent clause: seeded contention histories on ocimem in immutable-tags mode, linearizability decided by TLC (LinTrace); deeper in C08']
     return vlib.finish(ctx, rule='histories of tagged/untagged pushes, re-pushes under other media types, indexes of images, subjects, deletes, mounts and uploads; after every call the '
                        'projected state of the registry underneath must equal the model state, so a moved or lost tag, a deleted protected blob/manifest, or a write through the '
                        'read-only wrapper is rejected at the step where it happens')
